@@ -82,7 +82,7 @@ CHECKS = {
    ref="6 (C09)"),
  "C14": dict(
    text="The real generated AReplica/AClient archetypes of systems/pbkvs run in the level-A spec world (ReliableFIFOLink per <<id, typ>>, NetworkToggle, PerfectFD, LeaderElection on the alive set, NetworkBufferLength, FileSystem, request Channel) for 1-4 replicas and 1-3 clients with EXPLORE_FAIL: every mayFail branch is a stream decision (bounded so that one replica survives), so replicas crash at every label boundary the spec allows, including mid-replication. After every committed step ConsistencyOK as written in the spec (primary about to answer => every live replica holds the primary's store) and no failed assertion; the clients' history is checked for linearizability against a register with porcupine.",
-   note="Trusted: level-A environment stubs (macros to the letter, cross-checked by C02 against TLC); perfect failure detector as the property states; KEY_SET = {KEY1} as in the spec.",
+   note="Trusted: level-A environment stubs (macros to the letter, cross-checked by C02 against TLC); perfect failure detector as the property states; KEY_SET = {KEY1} as in the spec. One recorded known finding (a Put re-sent after a primary crash is applied twice), attributed only to histories that become linearizable once re-sent Puts may take effect a second time.",
    technique="deterministic simulation at spec-step granularity: seeded interleavings and crash points over the real generated primary-backup archetypes; invariant oracle after every step + porcupine linearizability of the recorded history",
    ref="6 (C14)"),
  "C16": dict(
